@@ -211,6 +211,24 @@ def run_code(doc, root_pub, tmpdir):
             REVALIDATION.append("valid-under-an-unrelated-root-after-earlier-validation")
         if norm(cert.validate_and_get_values(root)) != norm(first):
             REVALIDATION.append("validation-after-other-root-differs")
+        # an element replaced in the object (add_element with the same name): the next
+        # validation judges the certificate as it is now - broken, then whole again
+        from admin.certificate import HSMCertificateElement
+        valid_targets = [t for t, v in first.items() if v[0]]
+        if valid_targets:
+            t = valid_targets[0]
+            path = path_of(doc, t)
+            victim = [e for e in doc["elements"] if e["name"] == path[len(path) // 2]][0]
+            broken = dict(victim)
+            m = bytearray(bytes.fromhex(broken["message"]))
+            m[len(m) // 2] ^= 0x10
+            broken["message"] = bytes(m).hex()
+            cert.add_element(HSMCertificateElement(broken))
+            if cert.validate_and_get_values(root)[t][0]:
+                REVALIDATION.append("still-valid-after-an-element-on-the-path-was-replaced")
+            cert.add_element(HSMCertificateElement(dict(victim)))
+            if norm(cert.validate_and_get_values(root)) != norm(first):
+                REVALIDATION.append("not-valid-again-after-the-element-was-put-back")
     except Exception as e:
         REVALIDATION.append("revalidation-raised-%s" % type(e).__name__)
     return first
